@@ -135,10 +135,9 @@ theorem rename_run (c : Cfg) (old new : Str) (s : HC) :
                 cases insert c n (normalizePath c new false) s2 with
                 | mk s3 r3 => cases r3 <;> rfl
 
-/-- guard of an id-assigning operation: the target is not the root and the id is not held by an
-    existing proper ancestor of the target (the root included) -/
+/-- guard of an id-assigning operation: the target is not the root and the id is not the root's id -/
 def InsGuard (c : Cfg) (s : HC) (path : Str) (oid : Option Oid) : Prop :=
-  tcomps c path ≠ [] ∧ ∀ o, oid = some o → o ≠ 0 → ChainFree s o (tcomps c path).dropLast
+  tcomps c path ≠ [] ∧ ∀ o, oid = some o → o ≠ 0 → (s.nd 0).oid ≠ some o
 
 /-- guard of the coherence theorem, per operation -/
 def OpGuard (c : Cfg) (s : HC) : Op → Prop
@@ -158,7 +157,7 @@ theorem insertSafe_iff {c : Cfg} (g : CfgGood c) (s : HC) (p : Str) (oid : Optio
     subst ho
     cases o with
     | zero => exact absurd rfl h0
-    | succ k => exact (ancFree_iff s _ _).1 h2
+    | succ k => simpa using h2
   · rintro ⟨h1, h2⟩
     refine ⟨h1, ?_⟩
     cases oid with
@@ -166,7 +165,7 @@ theorem insertSafe_iff {c : Cfg} (g : CfgGood c) (s : HC) (p : Str) (oid : Optio
     | some o =>
       cases o with
       | zero => rfl
-      | succ k => exact (ancFree_iff s _ _).2 (h2 _ rfl (by simp))
+      | succ k => simpa using h2 _ rfl (by simp)
 
 /-- the executable guard the driver evaluates is the guard of the theorem -/
 theorem opSafe_iff {c : Cfg} (g : CfgGood c) (s : HC) (op : Op) : opSafe c s op = true ↔ OpGuard c s op := by
@@ -195,36 +194,73 @@ theorem create_coherent {c : Cfg} (g : CfgGood c) {s : HC} (hc : Coherent c s) (
 theorem delete_coherent {c : Cfg} (g : CfgGood c) {s : HC} (hc : Coherent c s) (o : Option Oid) (p : Option Str) :
     Coherent c (delete c o p s).1 := (delete_spec g s o p hc).1.coh
 
-theorem setOidNode_coherent {c : Cfg} (g : CfgGood c) {s : HC} {n : Nat} {kn : List Str} {o : Oid} (hc : Coherent c s)
-    (hn : res s kn = some n) (hne : kn ≠ []) (h0 : o ≠ 0) (hfree : ChainFree s o kn.dropLast) :
-    Coherent c (setOidNode c n o s).1 := by
-  rw [setOidNode_run]
+/-- `_set_oid` on the reachable non-root node `n` with an id other than the root's -/
+theorem setOidNode_spec {c : Cfg} (g : CfgGood c) {s : HC} {n : Nat} {kn : List Str} {o : Oid} (hc : Coherent c s)
+    (hn : res s kn = some n) (hne : kn ≠ []) (h0 : o ≠ 0) (hroot : (s.nd 0).oid ≠ some o) :
+    ∀ out, setOidNode c n o s = out → Coherent c out.1 ∧ out.2 ≠ .error .fuel := by
+  intro out hout
+  rw [setOidNode_run] at hout
   by_cases hcond : (s.nd n).oid = some o
-  · rw [if_pos hcond]; exact hc
-  · rw [if_neg hcond]
+  · rw [if_pos hcond] at hout; subst hout; exact ⟨hc, by simp⟩
+  · rw [if_neg hcond] at hout
+    simp only [hc.fullPath g hn] at hout
+    have htot := delete_total g hc (some o) none (Or.inl rfl)
     cases hrun : delete c (some o) none s with
     | mk s1 r1 =>
-      obtain ⟨dp, hn1⟩ := delete_oid_keeps g hc hn hcond hfree hrun
-      cases r1 with
-      | error e => exact dp.coh
-      | ok u =>
-        simp only
-        have hroot : (s.nd 0).oid ≠ some o := hfree [] List.nil_prefix 0 rfl
-        have hgone := delete_oid_gone g hc h0 hroot hrun rfl
-        cases ho : (s1.nd n).oid with
-        | none =>
-          simp only
-          cases checkOk s1 n with
-          | false => exact dp.coh
-          | true => exact dp.coh.assignOid ⟨kn, hn1⟩ ho h0 hgone
-        | some o1 =>
-          simp only [dp.coh.fullPath g hn1]
-          have hk := dp.coh.ksOk hn1
-          have hm := (makeNode_spec g dp.coh (s1.nd n).type (canon c.sep kn) (some o)
-            (by rw [tcomps_canon g hk]; exact hne)
-            (fun o' ho' _ => by rw [tcomps_canon g hk]; cases ho'; exact hfree.delPost dp) _ rfl).1
-          cases hmk : makeNode c (s1.nd n).type (canon c.sep kn) (some o) s1 with
-          | mk t r => rw [hmk] at hm; cases r <;> exact hm
+      rw [hrun] at htot hout
+      simp only at htot
+      subst htot
+      obtain ⟨dp, hgone, hcase⟩ := delete_oid_cases g hc h0 hroot hn hcond hrun
+      have hk := hc.ksOk hn
+      have hroot1 : (s1.nd 0).oid ≠ some o := by rw [(dp.fields 0).2.1]; exact hroot
+      have hmake : ∀ out', (match makeNode c (s1.nd n).type (canon c.sep kn) (some o) s1 with
+            | (t, Except.error e) => ((t, Except.error e) : HC × Except Err Unit)
+            | (t, Except.ok _) => (t, Except.ok ())) = out' → Coherent c out'.1 ∧ out'.2 ≠ .error .fuel := by
+        intro out' ho'
+        have hm := makeNode_spec g dp.coh (s1.nd n).type (canon c.sep kn) (some o)
+          (by rw [tcomps_canon g hk]; exact hne) (fun o' ho'' _ => by cases ho''; exact hroot1) _ rfl
+        cases hmk : makeNode c (s1.nd n).type (canon c.sep kn) (some o) s1 with
+        | mk t r =>
+          rw [hmk] at hm ho'
+          cases r with
+          | error e => subst ho'; exact ⟨hm.1, by simpa using hm.2.2.1⟩
+          | ok _ => subst ho'; exact ⟨hm.1, by simp⟩
+      simp only at hout
+      cases ho : (s1.nd n).oid with
+      | none =>
+        rw [ho] at hout
+        simp only at hout
+        cases hfp : fullPath c s1 n with
+        | error e =>
+          rw [hfp] at hout
+          simp only at hout; subst hout
+          refine ⟨dp.coh, ?_⟩
+          have := fullPath_ne_fuel c s1 n
+          rw [hfp] at this
+          simpa using this
+        | ok fp1 =>
+          rw [hfp] at hout
+          cases fp1 with
+          | some p1 =>
+            simp only [Option.isSome_some] at hout
+            rcases hcase with hn1 | ⟨hbad, _⟩
+            · cases hck : checkOk s1 n with
+              | false => rw [hck] at hout; simp only [Bool.false_eq_true, if_false] at hout; subst hout; exact ⟨dp.coh, by simp⟩
+              | true =>
+                rw [hck] at hout; simp only [if_true] at hout; subst hout
+                exact ⟨dp.coh.assignOid ⟨kn, hn1⟩ ho h0 hgone, by simp⟩
+            · exact absurd hfp (hbad p1)
+          | none =>
+            simp only [Option.isSome_none] at hout
+            exact hmake _ hout
+      | some o1 =>
+        rw [ho] at hout
+        simp only at hout
+        exact hmake _ hout
+
+theorem setOidNode_coherent {c : Cfg} (g : CfgGood c) {s : HC} {n : Nat} {kn : List Str} {o : Oid} (hc : Coherent c s)
+    (hn : res s kn = some n) (hne : kn ≠ []) (h0 : o ≠ 0) (hroot : (s.nd 0).oid ≠ some o) :
+    Coherent c (setOidNode c n o s).1 := (setOidNode_spec g hc hn hne h0 hroot _ rfl).1
 
 theorem setOid_coherent {c : Cfg} (g : CfgGood c) {s : HC} (hc : Coherent c s) (p : Str) (o : Option Oid) (t : OType)
     (hg : InsGuard c s p o) : Coherent c (setOid c p o t s).1 := by
@@ -254,7 +290,7 @@ theorem update_coherent {c : Cfg} (g : CfgGood c) {s : HC} (hc : Coherent c s) (
     (hg : InsGuard c s p o) : Coherent c (update c p t o s).1 := by
   rw [update_run, getNode_path g]
   simp only
-  have hmake : ∀ s', Coherent c s' → (∀ o', o = some o' → o' ≠ 0 → ChainFree s' o' (tcomps c p).dropLast) →
+  have hmake : ∀ s', Coherent c s' → (∀ o', o = some o' → o' ≠ 0 → (s'.nd 0).oid ≠ some o') →
       Coherent c (match makeNode c t p o s' with
         | (t', Except.error e) => ((t', Except.error e) : HC × Except Err Unit)
         | (t', Except.ok i) => checkFull c i t').1 := by
@@ -278,7 +314,7 @@ theorem update_coherent {c : Cfg} (g : CfgGood c) {s : HC} (hc : Coherent c s) (
       have d : DelCtx c s init a pp n := ⟨g, hc, hp, hkk⟩
       rw [deleteNode_ctx d]
       simp only
-      exact hmake _ d.coherent_detach (fun o' ho' h0' => (hg.2 o' ho' h0').delPost d.delPost)
+      exact hmake _ d.coherent_detach (fun o' ho' h0' => by rw [(d.delPost.fields 0).2.1]; exact hg.2 o' ho' h0')
     · rw [if_neg ht]
       simp only
       have hset : Coherent c ((if truthy o then
@@ -337,17 +373,11 @@ theorem rename_coherent {c : Cfg} (g : CfgGood c) {s : HC} (hc : Coherent c s) (
           simp only
           have hsub2 : Sub c s2 n := hsub1.frame (hd2.frameX (fun _ => False)) (fun _ _ h => h) hd2.idsub
           -- nothing reachable holds the id of the node being moved
-          have hfree : ∀ o, (s2.nd n).oid = some o → o ≠ 0 → ChainFree s2 o (tcomps c new).dropLast := by
-            intro o ho h0 q _ m hm hmo
-            have hm1 : Reach (detachSt c s pp n a) m := hd2.reach ⟨q, hm⟩
-            have hm0 : Reach s m := d.reach_detach_old hm1
-            have e1 : (s.nd m).oid = some o := by
-              rw [← (d.delPost.fields m).2.1, ← (hd2.fields m).2.1]; exact hmo
-            have e2 : (s.nd n).oid = some o := by
-              rw [← (d.delPost.fields n).2.1, ← (hd2.fields n).2.1]; exact ho
-            have := hc.oid_unique hm0 ⟨_, d.hn⟩ e1 e2 h0
-            subst this
-            exact hsub1.unreach [] m rfl hm1
+          have hfree : ∀ o, (s2.nd n).oid = some o → o ≠ 0 → (s2.nd 0).oid ≠ some o := by
+            intro o ho h0 hro
+            have e1 : (s.nd 0).oid = some o := by rw [← (d.delPost.fields 0).2.1, ← (hd2.fields 0).2.1]; exact hro
+            have e2 : (s.nd n).oid = some o := by rw [← (d.delPost.fields n).2.1, ← (hd2.fields n).2.1]; exact ho
+            exact d.n_ne_zero (hc.oid_unique ⟨_, d.hn⟩ (Reach.root s) e2 e1 h0)
           have hins := (insertNode_spec g (tcomps_ok g new) hg hd2.coh hsub2 hfree
             (insFuel (canon c.sep (tcomps c new))) _ rfl).1
           simp only [insert, normalizePath_tcomps g]
@@ -397,17 +427,11 @@ theorem rename_moves {c : Cfg} (g : CfgGood c) {s : HC} (hc : Coherent c s) (old
       have hsub2 : Sub c s2 n := hsub1.frame (hd2.frameX (fun _ => False)) hE hd2.idsub
       have hres2 : ∀ q, resFrom s2 n q = resFrom (detachSt c s pp n a) n q :=
         fun q => hsub1.resFrom_frame (hd2.frameX (fun _ => False)) hE q
-      have hfree : ∀ o, (s2.nd n).oid = some o → o ≠ 0 → ChainFree s2 o (tcomps c new).dropLast := by
-        intro o ho h0 q _ m hm hmo
-        have hm1 : Reach (detachSt c s pp n a) m := hd2.reach ⟨q, hm⟩
-        have hm0 : Reach s m := d.reach_detach_old hm1
-        have e1 : (s.nd m).oid = some o := by
-          rw [← (d.delPost.fields m).2.1, ← (hd2.fields m).2.1]; exact hmo
-        have e2 : (s.nd n).oid = some o := by
-          rw [← (d.delPost.fields n).2.1, ← (hd2.fields n).2.1]; exact ho
-        have := hc.oid_unique hm0 ⟨_, d.hn⟩ e1 e2 h0
-        subst this
-        exact hsub1.unreach [] m rfl hm1
+      have hfree : ∀ o, (s2.nd n).oid = some o → o ≠ 0 → (s2.nd 0).oid ≠ some o := by
+        intro o ho h0 hro
+        have e1 : (s.nd 0).oid = some o := by rw [← (d.delPost.fields 0).2.1, ← (hd2.fields 0).2.1]; exact hro
+        have e2 : (s.nd n).oid = some o := by rw [← (d.delPost.fields n).2.1, ← (hd2.fields n).2.1]; exact ho
+        exact d.n_ne_zero (hc.oid_unique ⟨_, d.hn⟩ (Reach.root s) e2 e1 h0)
       have hins := (insertNode_spec g (tcomps_ok g new) hg hd2.coh hsub2 hfree
         (insFuel (canon c.sep (tcomps c new))) _ rfl).2.1
       simp only [insert, normalizePath_tcomps g] at hout
@@ -451,24 +475,26 @@ theorem setOid_replace {c : Cfg} (g : CfgGood c) {s : HC} (hc : Coherent c s) (p
     cases o with
     | zero => exact absurd rfl h0
     | succ k => rfl
+  have hcond : (s.nd n).oid ≠ some o := by rw [ho1]; intro e; exact hne (Option.some.inj e)
+  have hroot := hg.2 o rfl h0
   rw [setOid_run] at hout
   simp only [ht, hp, Bool.not_true, Bool.or_self, Bool.false_eq_true, if_false, getNode_path g, hn] at hout
-  rw [setOidNode_run, if_neg (by rw [ho1]; intro e; exact hne (Option.some.inj e))] at hout
-  have hfree := hg.2 o rfl h0
+  rw [setOidNode_run, if_neg hcond] at hout
+  simp only [hc.fullPath g hn] at hout
   have htot := delete_total g hc (some o) none (Or.inl rfl)
   cases hrun : delete c (some o) none s with
   | mk s1 r1 =>
     rw [hrun] at htot hout
     simp only at htot
     subst htot
-    obtain ⟨dp, hn1⟩ := delete_oid_keeps g hc hn (by rw [ho1]; intro e; exact hne (Option.some.inj e)) hfree hrun
+    obtain ⟨dp, _, _⟩ := delete_oid_cases g hc h0 hroot hn hcond hrun
     have ho1' : (s1.nd n).oid = some o1 := by rw [(dp.fields n).2.1]; exact ho1
     have hty : (s1.nd n).type = (s.nd n).type := (dp.fields n).1
-    simp only [ho1', dp.coh.fullPath g hn1] at hout
-    have hk := dp.coh.ksOk hn1
+    simp only [ho1'] at hout
+    have hk := hc.ksOk hn
     have hspec := makeNode_spec g dp.coh (s1.nd n).type (canon c.sep (tcomps c p)) (some o)
       (by rw [tcomps_canon g hk]; exact hg.1)
-      (fun o' ho' _ => by rw [tcomps_canon g hk]; cases ho'; exact hfree.delPost dp) _ rfl
+      (fun o' ho' _ => by cases ho'; rw [(dp.fields 0).2.1]; exact hroot) _ rfl
     cases hmk : makeNode c (s1.nd n).type (canon c.sep (tcomps c p)) (some o) s1 with
     | mk t' r' =>
       rw [hmk] at hspec hout
@@ -478,7 +504,7 @@ theorem setOid_replace {c : Cfg} (g : CfgGood c) {s : HC} (hc : Coherent c s) (p
       | error e => simp only at hout; subst hout; simp at hok
       | ok i =>
         simp only at hout; subst hout
-        obtain ⟨b1, b2, b3, b4⟩ := hsucc i rfl
+        obtain ⟨b1, b2, b3, b4, b5⟩ := hsucc i rfl
         rw [tcomps_canon g hk] at b1 b4
         refine ⟨hct, ⟨i, b1, b2, by rw [b3, hty]⟩, b4, fun r m om hr hm hom hom0 homo => ?_⟩
         cases hd : dget t'.idmap om with
@@ -500,25 +526,7 @@ theorem setOid_replace {c : Cfg} (g : CfgGood c) {s : HC} (hc : Coherent c s) (p
             subst this
             rw [b4 r hr] at hq'; simp at hq'
           · -- the replacement node carries the new id
-            subst k1
-            have hi : i = s1.heap.length := by
-              have := hct.res_inj b1 (show res t' (tcomps c p) = some i from b1)
-              -- i is the freshly allocated node: read it off the success clause
-              exact (by
-                have hmk' := hmk
-                unfold makeNode at hmk'
-                rw [makeNodeWith_run] at hmk'
-                revert hmk'
-                generalize insert c s1.heap.length (normalizePath c (canon c.sep (tcomps c p)) false) _ = z
-                cases z with
-                | mk a b =>
-                  cases b with
-                  | error e => intro h; simp at h
-                  | ok _ =>
-                    simp only
-                    cases checkFull c s1.heap.length a with
-                    | mk a' b' => cases b' <;> intro h <;> simp at h <;> exact h.2.symm)
-            rw [← hi, b2] at hmo
+            rw [k1, ← b5, b2] at hmo
             exact homo (Option.some.inj hmo).symm
           · rw [k1] at hmo; simp at hmo
 
@@ -536,34 +544,8 @@ theorem delete_ne_fuel {c : Cfg} (g : CfgGood c) {s : HC} (hc : Coherent c s) (o
     simp [getNode]
 
 theorem setOidNode_ne_fuel {c : Cfg} (g : CfgGood c) {s : HC} {n : Nat} {kn : List Str} {o : Oid} (hc : Coherent c s)
-    (hn : res s kn = some n) (hne : kn ≠ []) (h0 : o ≠ 0) (hfree : ChainFree s o kn.dropLast) :
-    (setOidNode c n o s).2 ≠ .error .fuel := by
-  rw [setOidNode_run]
-  by_cases hcond : (s.nd n).oid = some o
-  · rw [if_pos hcond]; simp
-  · rw [if_neg hcond]
-    have htot := delete_total g hc (some o) none (Or.inl rfl)
-    cases hrun : delete c (some o) none s with
-    | mk s1 r1 =>
-      rw [hrun] at htot
-      simp only at htot
-      subst htot
-      obtain ⟨dp, hn1⟩ := delete_oid_keeps g hc hn hcond hfree hrun
-      simp only
-      cases ho : (s1.nd n).oid with
-      | none => simp only; split <;> simp
-      | some o1 =>
-        simp only [dp.coh.fullPath g hn1]
-        have hk := dp.coh.ksOk hn1
-        have hm := (makeNode_spec g dp.coh (s1.nd n).type (canon c.sep kn) (some o)
-          (by rw [tcomps_canon g hk]; exact hne)
-          (fun o' ho' _ => by rw [tcomps_canon g hk]; cases ho'; exact hfree.delPost dp) _ rfl).2.2.1
-        cases hmk : makeNode c (s1.nd n).type (canon c.sep kn) (some o) s1 with
-        | mk t r =>
-          rw [hmk] at hm
-          cases r with
-          | error e => simpa using hm
-          | ok _ => simp
+    (hn : res s kn = some n) (hne : kn ≠ []) (h0 : o ≠ 0) (hroot : (s.nd 0).oid ≠ some o) :
+    (setOidNode c n o s).2 ≠ .error .fuel := (setOidNode_spec g hc hn hne h0 hroot _ rfl).2
 
 theorem step_ne_fuel {c : Cfg} (g : CfgGood c) {s : HC} (hc : Coherent c s) (op : Op) (hg : OpGuard c s op) :
     (step c s op).2 ≠ .error .fuel := by
@@ -609,7 +591,7 @@ theorem step_ne_fuel {c : Cfg} (g : CfgGood c) {s : HC} (hc : Coherent c s) (op 
     simp only [step]
     rw [update_run, getNode_path g]
     simp only
-    have hmake : ∀ s', Coherent c s' → (∀ o', o = some o' → o' ≠ 0 → ChainFree s' o' (tcomps c p).dropLast) →
+    have hmake : ∀ s', Coherent c s' → (∀ o', o = some o' → o' ≠ 0 → (s'.nd 0).oid ≠ some o') →
         (match makeNode c t p o s' with
           | (t', Except.error e) => ((t', Except.error e) : HC × Except Err Unit)
           | (t', Except.ok i) => checkFull c i t').2 ≠ .error .fuel := by
@@ -633,7 +615,7 @@ theorem step_ne_fuel {c : Cfg} (g : CfgGood c) {s : HC} (hc : Coherent c s) (op 
         have d : DelCtx c s init a pp n := ⟨g, hc, hp, hkk⟩
         rw [deleteNode_ctx d]
         simp only
-        exact hmake _ d.coherent_detach (fun o' ho' h0' => (hg.2 o' ho' h0').delPost d.delPost)
+        exact hmake _ d.coherent_detach (fun o' ho' h0' => by rw [(d.delPost.fields 0).2.1]; exact hg.2 o' ho' h0')
       · rw [if_neg ht]
         simp only
         have hset : ((if truthy o then
@@ -690,17 +672,11 @@ theorem step_ne_fuel {c : Cfg} (g : CfgGood c) {s : HC} (hc : Coherent c s) (op 
           subst htot
           simp only
           have hsub2 : Sub c s2 n := hsub1.frame (hd2.frameX (fun _ => False)) (fun _ _ h => h) hd2.idsub
-          have hfree : ∀ o, (s2.nd n).oid = some o → o ≠ 0 → ChainFree s2 o (tcomps c new).dropLast := by
-            intro o ho h0 q _ m hm hmo
-            have hm1 : Reach (detachSt c s pp n a) m := hd2.reach ⟨q, hm⟩
-            have hm0 : Reach s m := d.reach_detach_old hm1
-            have e1 : (s.nd m).oid = some o := by
-              rw [← (d.delPost.fields m).2.1, ← (hd2.fields m).2.1]; exact hmo
-            have e2 : (s.nd n).oid = some o := by
-              rw [← (d.delPost.fields n).2.1, ← (hd2.fields n).2.1]; exact ho
-            have := hc.oid_unique hm0 ⟨_, d.hn⟩ e1 e2 h0
-            subst this
-            exact hsub1.unreach [] m rfl hm1
+          have hfree : ∀ o, (s2.nd n).oid = some o → o ≠ 0 → (s2.nd 0).oid ≠ some o := by
+            intro o ho h0 hro
+            have e1 : (s.nd 0).oid = some o := by rw [← (d.delPost.fields 0).2.1, ← (hd2.fields 0).2.1]; exact hro
+            have e2 : (s.nd n).oid = some o := by rw [← (d.delPost.fields n).2.1, ← (hd2.fields n).2.1]; exact ho
+            exact d.n_ne_zero (hc.oid_unique ⟨_, d.hn⟩ (Reach.root s) e2 e1 h0)
           have hins := (insertNode_spec g (tcomps_ok g new) hg' hd2.coh hsub2 hfree
             (insFuel (canon c.sep (tcomps c new))) _ rfl).2.2.1
             (by have := length_lt_canon (tcomps_ok g new); simp only [insFuel]; omega)
